@@ -10,7 +10,7 @@ pub fn def() -> PropDef {
     PropDef { id: "C12", level: "exploration", run, case, render }
 }
 
-const OFFSETS: &[P] = &[(0, 0), (3, -2), (-7, 5), (1 << 20, -(1 << 20)), (-(1 << 20) + 1, 12345)];
+const OFFSETS: &[P] = &[(0, 0), (3, -2), (-7, 5), (1 << 20, -(1 << 20)), (-(1 << 20) + 1, 12345), (5, 0), (0, -9)];
 const GRID: i64 = 4; // points -4..=4 in both axes
 
 #[derive(Clone, Copy, Debug, PartialEq, Eq, Hash)]
@@ -115,7 +115,7 @@ fn random_chain(src: &mut Src) -> Vec<Place> {
             loc: match src.weighted(&[3, 3, 2]) {
                 0 => *src.pick(OFFSETS),
                 1 => (src.signed(1000), src.signed(1000)),
-                _ => (src.signed(1 << 24), src.signed(1 << 24)),
+                _ => (src.signed(1 << 30), src.signed(1 << 30)),
             },
             none_angle: src.bool(),
         })
@@ -370,7 +370,7 @@ fn general_flatten_case(src: &mut Src, ctx: &mut Ctx) -> Result<(), String> {
 }
 
 fn run(run: &mut Run) {
-    run.rule("Placement chains over the eight right-angle orientations x 5 offsets per level, every point of a 9x9 grid: depth 1-3 exhaustive in every tier, depth 4 exhaustive in thorough (sampled in quick); random chains with large offsets; random raw cell hierarchies (depth <= 4, rect/polygon/path shapes) through Layout::flatten; general angles against real arithmetic with half-unit tolerance. Non-trivial = chain/hierarchy containing a reflected placement rotated by 90 or 270 degrees; distinct by hash of the chain.");
+    run.rule("Placement chains over the eight right-angle orientations x 7 offsets per level, every point of a 9x9 grid: depth 1-3 exhaustive in every tier, depth 4 exhaustive in thorough (sampled in quick); random chains with large offsets; random raw cell hierarchies (depth <= 4, rect/polygon/path shapes) through Layout::flatten; general angles against real arithmetic with half-unit tolerance. Non-trivial = chain/hierarchy containing a reflected placement rotated by 90 or 270 degrees; distinct by hash of the chain.");
     run.assume("R-geom integer matrices are the meaning of 'reflect about the x-axis, rotate counter-clockwise, translate'");
     run.min_nontrivial = 100;
     for d in 1..=3 {
